@@ -20,7 +20,7 @@ META = {
     "functions": ["typelib.py.classes.slotted", "typelib.py.classes.slotted.<locals>.wrap", "typelib.py.classes._stack"],
     "bounds": {
         "quick": "dataclasses with 0-3 fields (no default / default / default_factory), flags frozen, eq, order, unsafe_hash, bases "
-                 "{none, unslotted dataclass, slotted dataclass, slotted with weakref, slotted parent over an unslotted grandparent}, user __getstate__ / __setstate__ (none, both, __setstate__ alone), the four "
+                 "{none, unslotted dataclass, slotted dataclass, slotted with weakref, slotted parent over an unslotted grandparent}, user __getstate__ / __setstate__ (none, both, either one alone), the four "
                  "(dict, weakref) combinations - every combination (choice variables, exhaustively enumerated); decoration histories "
                  "of 1-3 classes over {valid dataclass, same-named frozen dataclass, non-dataclass (fails), same-named subclass of an unslotted dataclass, other name, a class whose re-creation decorates another class with a similar long name (nested decoration)}; "
                  "every returned class is checked to be built from the class passed in (fields, frozen, order, name, slots); "
@@ -72,9 +72,8 @@ def build(ch: Chooser, max_fields, basek, d, w):
     frozen, eq = ch.flag(), ch.flag()
     order = eq and ch.flag()
     unsafe_hash = ch.flag()
-    # 0 none, 1 both hooks, 2 only __setstate__ (a lone __getstate__ returning a mapping cannot be restored into
-    # slots by any default mechanism - dataclasses' own slots=True included - and is outside the domain)
-    user_state = ch.pick(3)
+    # 0 none, 1 both hooks, 2 only __setstate__, 3 only __getstate__ (returning a mapping of the fields)
+    user_state = ch.pick(4)
     kinds = []
     seen_default = basek != 0  # the base's field has a default, so ours must too
     for i in range(nf):
@@ -204,7 +203,8 @@ def compare(C, S, base, desc, dw):
             except Exception as e:  # noqa: BLE001
                 return ("raised", type(e).__name__)
         cc, sc = tried(c2), tried(s2)
-        if cc != sc:
+        # a class whose own instances cannot be copied (a lone __getstate__ below a slotted base) gives no behaviour to preserve
+        if cc != sc and not (cc[0] == "raised" and sc[0] == "ok"):
             return ("copy_differs", "copy", _d(desc, cc, sc))
     # pickle (class looked up by module.qualname)
     def rt(cls, obj):
@@ -216,7 +216,7 @@ def compare(C, S, base, desc, dw):
     if base is not None:
         setattr(MOD, "Base", base)
     pc, ps = rt(C, c2), rt(S, s2)
-    if pc != ps:
+    if pc != ps and not (pc[0] == "raised" and ps[0] == "ok"):
         return ("pickle_differs", "pickle", _d(desc, pc, ps))
     # weakref
     can = True
